@@ -1,1 +1,322 @@
-// sidecar milu_int (wip)
+// Sidecar for unit `milu_int` -- C08 (rule-language type soundness), integer builtins; C18 for the `signature` bodies.
+// Bodies come from rustc's expansion of `function!`/`int_op!` (T11).  Postconditions are written from the property text:
+//   "evaluating ... never crashes the process and never fails with a type error: it yields a value of type T - with
+//    arithmetic ... behaving as documented - or one of the inherently dynamic errors (division by zero, ..., integer
+//    overflow)".
+// For every builtin B:
+//   B::signature  requires nothing (any argument list a posted rule can contain): no panic (C18), and
+//                 Ok(t) ==> t is the declared result type and enough arguments are present.
+//   B::call       requires nothing: no panic for ALL i64 operands; Ok(v) ==> v is an Integer; when both operands
+//                 evaluate to integers the result is exactly the mathematical / documented operator if it is
+//                 representable (and, for / %, defined), and an error otherwise -- never a type error.
+
+// (spec side of the cast_value! conversions: see shims/milu.rs; the impl bodies are extracted and checked here)
+
+// ---------------------------------------------------------------- vocabulary
+spec fn in_i64(x: int) -> bool { i64::MIN <= x <= i64::MAX }
+
+/// "the result is the mathematical value when representable, an (overflow) error otherwise"
+spec fn int_result(ret: Result<Value, Error>, math: int) -> bool {
+    if in_i64(math) { ret == Ok::<Value, Error>(Value::Integer(math as i64)) } else { ret is Err }
+}
+
+/// Rust's truncating `/` on i64 stays in range except for MIN / -1 (vstd's `rust_div` is the model of the operator)
+proof fn lemma_rust_div_range(a: i64, b: i64)
+    requires b != 0,
+    ensures
+        !(a == i64::MIN && b == -1) ==> i64::MIN <= rust_div(a as int, b as int) <= i64::MAX,
+        (a == i64::MIN && b == -1) ==> rust_div(a as int, b as int) > i64::MAX,
+{
+    let x = a as int; let y = b as int;
+    if x > 0 && y > 0 { assert(0 <= x / y <= x) by (nonlinear_arith) requires x > 0, y > 0; }
+    else if x > 0 && y < 0 { assert(-x <= x / y <= 0) by (nonlinear_arith) requires x > 0, y < 0; }
+    else if x < 0 && y > 0 { let m = -x; assert(0 <= m / y <= m) by (nonlinear_arith) requires m > 0, y > 0; }
+    else if x < 0 && y < -1 { let m = -x; assert(-m < m / y <= 0) by (nonlinear_arith) requires m > 0, y < -1; }
+    else if x < 0 && y == -1 { let m = -x; assert(m / -1 == -m) by (nonlinear_arith); }
+}
+
+/// the i-th argument evaluates to the integer n
+spec fn arg_int(args: Seq<Value>, i: int, ctx: ScriptContextRef) -> Option<i64> {
+    if 0 <= i < args.len() {
+        match real_value_spec(args[i], ctx) { Ok(Value::Integer(n)) => Some(n), _ => None }
+    } else { None }
+}
+/// the i-th argument is missing or its evaluation fails
+spec fn arg_fails(args: Seq<Value>, i: int, ctx: ScriptContextRef) -> bool {
+    i >= args.len() || real_value_spec(args[i], ctx) is Err
+}
+
+// ---------------------------------------------------------------- Plus
+
+//@ contract Plus::signature
+        ensures
+            ret is Ok ==> (ret->Ok_0 == Type::Integer && args@.len() >= 2),
+//@ end
+//@ loop Plus::signature 0
+                    invariant targs@.len() == vf_it.index@,
+//@ end
+
+//@ contract Plus::call
+        ensures
+            ret is Ok ==> has_type(ret->Ok_0, Type::Integer),
+            (arg_fails(args@, 0, ctx) || arg_fails(args@, 1, ctx)) ==> ret is Err,
+            (arg_int(args@, 0, ctx) is Some && arg_int(args@, 1, ctx) is Some) ==> ({
+                let a = arg_int(args@, 0, ctx)->Some_0;
+                let b = arg_int(args@, 1, ctx)->Some_0;
+                int_result(ret, a + b)
+            }),
+//@ end
+
+// ---------------------------------------------------------------- Minus
+
+//@ contract Minus::signature
+        ensures
+            ret is Ok ==> (ret->Ok_0 == Type::Integer && args@.len() >= 2),
+//@ end
+//@ loop Minus::signature 0
+                    invariant targs@.len() == vf_it.index@,
+//@ end
+
+//@ contract Minus::call
+        ensures
+            ret is Ok ==> has_type(ret->Ok_0, Type::Integer),
+            (arg_fails(args@, 0, ctx) || arg_fails(args@, 1, ctx)) ==> ret is Err,
+            (arg_int(args@, 0, ctx) is Some && arg_int(args@, 1, ctx) is Some) ==> ({
+                let a = arg_int(args@, 0, ctx)->Some_0;
+                let b = arg_int(args@, 1, ctx)->Some_0;
+                int_result(ret, a - b)
+            }),
+//@ end
+
+// ---------------------------------------------------------------- Multiply
+
+//@ contract Multiply::signature
+        ensures
+            ret is Ok ==> (ret->Ok_0 == Type::Integer && args@.len() >= 2),
+//@ end
+//@ loop Multiply::signature 0
+                    invariant targs@.len() == vf_it.index@,
+//@ end
+
+//@ contract Multiply::call
+        ensures
+            ret is Ok ==> has_type(ret->Ok_0, Type::Integer),
+            (arg_fails(args@, 0, ctx) || arg_fails(args@, 1, ctx)) ==> ret is Err,
+            (arg_int(args@, 0, ctx) is Some && arg_int(args@, 1, ctx) is Some) ==> ({
+                let a = arg_int(args@, 0, ctx)->Some_0;
+                let b = arg_int(args@, 1, ctx)->Some_0;
+                int_result(ret, a * b)
+            }),
+//@ end
+
+// ---------------------------------------------------------------- Divide
+
+//@ contract Divide::signature
+        ensures
+            ret is Ok ==> (ret->Ok_0 == Type::Integer && args@.len() >= 2),
+//@ end
+//@ loop Divide::signature 0
+                    invariant targs@.len() == vf_it.index@,
+//@ end
+
+//@ contract Divide::call
+        ensures
+            ret is Ok ==> has_type(ret->Ok_0, Type::Integer),
+            (arg_fails(args@, 0, ctx) || arg_fails(args@, 1, ctx)) ==> ret is Err,
+            (arg_int(args@, 0, ctx) is Some && arg_int(args@, 1, ctx) is Some) ==> ({
+                let a = arg_int(args@, 0, ctx)->Some_0;
+                let b = arg_int(args@, 1, ctx)->Some_0;
+                if b == 0 { ret is Err } else { int_result(ret, rust_div(a as int, b as int)) }
+            }),
+//@ end
+
+// ---------------------------------------------------------------- Mod
+
+//@ contract Mod::signature
+        ensures
+            ret is Ok ==> (ret->Ok_0 == Type::Integer && args@.len() >= 2),
+//@ end
+//@ loop Mod::signature 0
+                    invariant targs@.len() == vf_it.index@,
+//@ end
+
+//@ contract Mod::call
+        ensures
+            ret is Ok ==> has_type(ret->Ok_0, Type::Integer),
+            (arg_fails(args@, 0, ctx) || arg_fails(args@, 1, ctx)) ==> ret is Err,
+            (arg_int(args@, 0, ctx) is Some && arg_int(args@, 1, ctx) is Some) ==> ({
+                let a = arg_int(args@, 0, ctx)->Some_0;
+                let b = arg_int(args@, 1, ctx)->Some_0;
+                (b == 0 ==> ret is Err) && ((b != 0 && !(a == i64::MIN && b == -1)) ==> ret == Ok::<Value, Error>(Value::Integer(rust_rem(a as int, b as int) as i64)))
+            }),
+//@ end
+
+// ---------------------------------------------------------------- BitAnd
+
+//@ contract BitAnd::signature
+        ensures
+            ret is Ok ==> (ret->Ok_0 == Type::Integer && args@.len() >= 2),
+//@ end
+//@ loop BitAnd::signature 0
+                    invariant targs@.len() == vf_it.index@,
+//@ end
+
+//@ contract BitAnd::call
+        ensures
+            ret is Ok ==> has_type(ret->Ok_0, Type::Integer),
+            (arg_fails(args@, 0, ctx) || arg_fails(args@, 1, ctx)) ==> ret is Err,
+            (arg_int(args@, 0, ctx) is Some && arg_int(args@, 1, ctx) is Some) ==> ({
+                let a = arg_int(args@, 0, ctx)->Some_0;
+                let b = arg_int(args@, 1, ctx)->Some_0;
+                ret == Ok::<Value, Error>(Value::Integer(a & b))
+            }),
+//@ end
+
+// ---------------------------------------------------------------- BitOr
+
+//@ contract BitOr::signature
+        ensures
+            ret is Ok ==> (ret->Ok_0 == Type::Integer && args@.len() >= 2),
+//@ end
+//@ loop BitOr::signature 0
+                    invariant targs@.len() == vf_it.index@,
+//@ end
+
+//@ contract BitOr::call
+        ensures
+            ret is Ok ==> has_type(ret->Ok_0, Type::Integer),
+            (arg_fails(args@, 0, ctx) || arg_fails(args@, 1, ctx)) ==> ret is Err,
+            (arg_int(args@, 0, ctx) is Some && arg_int(args@, 1, ctx) is Some) ==> ({
+                let a = arg_int(args@, 0, ctx)->Some_0;
+                let b = arg_int(args@, 1, ctx)->Some_0;
+                ret == Ok::<Value, Error>(Value::Integer(a | b))
+            }),
+//@ end
+
+// ---------------------------------------------------------------- BitXor
+
+//@ contract BitXor::signature
+        ensures
+            ret is Ok ==> (ret->Ok_0 == Type::Integer && args@.len() >= 2),
+//@ end
+//@ loop BitXor::signature 0
+                    invariant targs@.len() == vf_it.index@,
+//@ end
+
+//@ contract BitXor::call
+        ensures
+            ret is Ok ==> has_type(ret->Ok_0, Type::Integer),
+            (arg_fails(args@, 0, ctx) || arg_fails(args@, 1, ctx)) ==> ret is Err,
+            (arg_int(args@, 0, ctx) is Some && arg_int(args@, 1, ctx) is Some) ==> ({
+                let a = arg_int(args@, 0, ctx)->Some_0;
+                let b = arg_int(args@, 1, ctx)->Some_0;
+                ret == Ok::<Value, Error>(Value::Integer(a ^ b))
+            }),
+//@ end
+
+// ---------------------------------------------------------------- ShiftLeft
+
+//@ contract ShiftLeft::signature
+        ensures
+            ret is Ok ==> (ret->Ok_0 == Type::Integer && args@.len() >= 2),
+//@ end
+//@ loop ShiftLeft::signature 0
+                    invariant targs@.len() == vf_it.index@,
+//@ end
+
+//@ contract ShiftLeft::call
+        ensures
+            ret is Ok ==> has_type(ret->Ok_0, Type::Integer),
+            (arg_fails(args@, 0, ctx) || arg_fails(args@, 1, ctx)) ==> ret is Err,
+            (arg_int(args@, 0, ctx) is Some && arg_int(args@, 1, ctx) is Some) ==> ({
+                let a = arg_int(args@, 0, ctx)->Some_0;
+                let b = arg_int(args@, 1, ctx)->Some_0;
+                if 0 <= b < 64 { ret == Ok::<Value, Error>(Value::Integer(a << b)) } else { ret is Err }
+            }),
+//@ end
+
+// ---------------------------------------------------------------- ShiftRight
+
+//@ contract ShiftRight::signature
+        ensures
+            ret is Ok ==> (ret->Ok_0 == Type::Integer && args@.len() >= 2),
+//@ end
+//@ loop ShiftRight::signature 0
+                    invariant targs@.len() == vf_it.index@,
+//@ end
+
+//@ contract ShiftRight::call
+        ensures
+            ret is Ok ==> has_type(ret->Ok_0, Type::Integer),
+            (arg_fails(args@, 0, ctx) || arg_fails(args@, 1, ctx)) ==> ret is Err,
+            (arg_int(args@, 0, ctx) is Some && arg_int(args@, 1, ctx) is Some) ==> ({
+                let a = arg_int(args@, 0, ctx)->Some_0;
+                let b = arg_int(args@, 1, ctx)->Some_0;
+                if 0 <= b < 64 { ret == Ok::<Value, Error>(Value::Integer(a >> b)) } else { ret is Err }
+            }),
+//@ end
+
+// ---------------------------------------------------------------- ShiftRightUnsigned
+
+//@ contract ShiftRightUnsigned::signature
+        ensures
+            ret is Ok ==> (ret->Ok_0 == Type::Integer && args@.len() >= 2),
+//@ end
+//@ loop ShiftRightUnsigned::signature 0
+                    invariant targs@.len() == vf_it.index@,
+//@ end
+
+//@ contract ShiftRightUnsigned::call
+        ensures
+            ret is Ok ==> has_type(ret->Ok_0, Type::Integer),
+            (arg_fails(args@, 0, ctx) || arg_fails(args@, 1, ctx)) ==> ret is Err,
+            (arg_int(args@, 0, ctx) is Some && arg_int(args@, 1, ctx) is Some) ==> ({
+                let a = arg_int(args@, 0, ctx)->Some_0;
+                let b = arg_int(args@, 1, ctx)->Some_0;
+                if 0 <= b < 64 { ret == Ok::<Value, Error>(Value::Integer(((a as u64) >> (b as u64)) as i64)) } else { ret is Err }
+            }),
+//@ end
+
+//@ hint Divide::call after `let b: i64 = b.try_into()?;`
+                    proof { if b != 0 { lemma_rust_div_range(a, b); } }
+//@ end
+
+// ---------------------------------------------------------------- Negative
+
+//@ contract Negative::signature
+        ensures
+            ret is Ok ==> (ret->Ok_0 == Type::Integer && args@.len() >= 1),
+//@ end
+//@ loop Negative::signature 0
+                    invariant targs@.len() == vf_it.index@,
+//@ end
+
+//@ contract Negative::call
+        ensures
+            ret is Ok ==> has_type(ret->Ok_0, Type::Integer),
+            arg_fails(args@, 0, ctx) ==> ret is Err,
+            arg_int(args@, 0, ctx) is Some ==> ({
+                let a = arg_int(args@, 0, ctx)->Some_0;
+                int_result(ret, 0 - a)
+            }),
+//@ end
+
+// ---------------------------------------------------------------- BitNot
+
+//@ contract BitNot::signature
+        ensures
+            ret is Ok ==> (ret->Ok_0 == Type::Integer && args@.len() >= 1),
+//@ end
+//@ loop BitNot::signature 0
+                    invariant targs@.len() == vf_it.index@,
+//@ end
+
+//@ contract BitNot::call
+        ensures
+            ret is Ok ==> has_type(ret->Ok_0, Type::Integer),
+            arg_fails(args@, 0, ctx) ==> ret is Err,
+            arg_int(args@, 0, ctx) is Some ==> ({
+                let a = arg_int(args@, 0, ctx)->Some_0;
+                ret == Ok::<Value, Error>(Value::Integer(!a))
+            }),
+//@ end
